@@ -413,6 +413,8 @@ def judge(c, results, rep):
             if want_ok:
                 bad = []
                 for slot, ev in exp.items():
+                    if slot == "tu9":
+                        continue      # the tuple added by the tuple-short mutation is unused on the valid lines
                     got = argh.parse_dump(slot, r2.slots.get(slot, "?"))
                     if not argh.values_equal(slot, got, ev):
                         bad.append((slot, got, ev))
